@@ -52,6 +52,8 @@ def run(ctx):
     rep.rule("C14.R10", "a contribution's stored initial state (q0 / u0) is written from its OWNED index set (my_qDOF / my_uDOF), the set the layout was built from", 2)
     rep.rule("C14.R9", "the name that is inserted into the registry has been tested for uniqueness after its last change", 2)
     rep.rule("C14.R7", "repeatability: marker attributes are constructor data; the unique-name counter is monotone", 12)
+    rep.rule("C14.R12", "System hands per-contribution callables (set_tau) that bind the contribution when they are created, not when they are called (K16 late binding)", 1)
+    r12_closures(ctx)
     sm = sysmodel.SystemModel(ctx)
     r1_registry(ctx, sm)
     r2_counters(ctx, sm)
@@ -584,6 +586,34 @@ def r11_evaluation_state(ctx, sm):
         rep.ok("C14.R11", f"{SYS}:System", "no evaluation method of System writes an attribute of the system (nothing can go stale)", trivial=False)
 
 
+def r12_closures(ctx):
+    """System.set_tau distributes the control vector: every actuator gets a callable that picks ITS entries tau[contr.tauDOF].  A lambda
+    created in the loop over the actuators looks `contr` up when it is called, i.e. after the loop: every actuator then reads the LAST
+    actuator's entries (the system-level la_tau is no longer the contributions' own data at their own DOFs)."""
+    from .. import closures
+    rep = ctx.rep
+    mod = ctx.repo.module(SYS)
+    n = 0
+    for q, fn in mod.defs().items():
+        if not isinstance(fn, ast.FunctionDef) or not q.startswith("System."):
+            continue
+        lams = [w for w in ast.walk(fn) if isinstance(w, ast.Lambda) or (isinstance(w, ast.FunctionDef) and w is not fn)]
+        loops = [w for w in ast.walk(fn) if isinstance(w, (ast.For, ast.While))]
+        if not lams or not loops:
+            continue
+        if any(isinstance(w, ast.Raise) for w in fn.body[:1]):
+            continue        # explicitly disabled (raise NotImplementedError first)
+        found = closures.find(fn)
+        n += 1
+        C = f"{SYS}:{q}"
+        if found:
+            for clo, loop, late in found:
+                rep.bad("C14.R12", C, clo, f"the closure `{norm_src(clo)[:70]}` is created inside a loop and reads {late}, which the loop re-binds: called later, every contribution's "
+                        "callable uses the LAST contribution (with two actuators both return the second one's entries of tau)", f"{SYS}:{clo.lineno}")
+        else:
+            rep.ok("C14.R12", C, "closures created in loops bind the loop variable at creation (default argument) or do not outlive the iteration")
+
+
 def r10_state_writeback(ctx, sm):
     """assemble() builds system.q0 by concatenating contr.q0 over the contributions that own coordinates and gives each of them
     my_qDOF = that slice.  Whatever writes contr.q0 / contr.u0 back must therefore read exactly that slice: qDOF / uDOF of an
@@ -598,6 +628,8 @@ def r10_state_writeback(ctx, sm):
             if not isinstance(st, ast.Assign):
                 continue
             for tg in st.targets:
+                while isinstance(tg, ast.Subscript):      # contr.q0[:] = ... (in-place form) writes the same datum
+                    tg = tg.value
                 if isinstance(tg, ast.Attribute) and isinstance(tg.value, ast.Name) and tg.attr in want and tg.value.id not in ("self",):
                     var = tg.value.id
                     subs = [w for w in ast.walk(st.value) if isinstance(w, ast.Subscript) and isinstance(w.slice, ast.Attribute)
@@ -755,4 +787,8 @@ NEUTRAL = [
          old="                    contr.name = new_name\n", new="                    contr.name = new_name\n                    while contr.name in self.contributions_map:\n                        contr.name = contr.name + \"_\"\n"),
     dict(id="c14-n2", what="la_c scatter written with +=", file=SYS,
          old="la_c[contr.la_cDOF] = contr.la_c(t, q[contr.qDOF], u[contr.uDOF])", new="la_c[contr.la_cDOF] += contr.la_c(t, q[contr.qDOF], u[contr.uDOF])"),
+]
+MUTANTS += [
+    dict(id="c14-r12-orig", canary=True, what="System.set_tau binds the actuator late (original defect F49)", file=SYS,
+         old="                contr.tau = lambda t, contr=contr: tau(t)[contr.tauDOF]\n", new="                contr.tau = lambda t: tau(t)[contr.tauDOF]\n", expect="C14.R12"),
 ]
